@@ -225,3 +225,251 @@ Proof.
   replace (c =? 43) with false by lia. replace (c =? 45) with false by lia.
   exact (parse_unsigned_num [] [] (c :: t) false eq_refl (or_introl eq_refl) H Hne).
 Qed.
+
+(* ================= part 2: exact arithmetic on representable values ================= *)
+Open Scope Z_scope.
+
+Definition dig (p : positive) : Z := Zpos (digits2_pos p).
+
+Lemma dig_pos p : 1 <= dig p.
+Proof. unfold dig. lia. Qed.
+
+Lemma dig_xO p : dig p~0 = dig p + 1.
+Proof. unfold dig. cbn [digits2_pos]. lia. Qed.
+Lemma dig_xI p : dig p~1 = dig p + 1.
+Proof. unfold dig. cbn [digits2_pos]. lia. Qed.
+
+Lemma pow2_succ k : 0 <= k -> 2 ^ (k + 1) = 2 * 2 ^ k.
+Proof. intros. rewrite Z.pow_add_r by lia. lia. Qed.
+
+Lemma dig_bounds p : 2 ^ (dig p - 1) <= Zpos p < 2 ^ dig p.
+Proof.
+  induction p as [p IH|p IH|].
+  - rewrite dig_xI. pose proof (dig_pos p).
+    assert (E : 2 ^ dig p = 2 * 2 ^ (dig p - 1)) by (rewrite <- pow2_succ by lia; f_equal; lia).
+    replace (dig p + 1 - 1) with (dig p) by lia. rewrite pow2_succ by lia. rewrite Pos2Z.inj_xI.
+    set (A := 2 ^ dig p) in *. set (B := 2 ^ (dig p - 1)) in *. clearbody A B. lia.
+  - rewrite dig_xO. pose proof (dig_pos p).
+    assert (E : 2 ^ dig p = 2 * 2 ^ (dig p - 1)) by (rewrite <- pow2_succ by lia; f_equal; lia).
+    replace (dig p + 1 - 1) with (dig p) by lia. rewrite pow2_succ by lia. change (Z.pos p~0) with (2 * Z.pos p).
+    set (A := 2 ^ dig p) in *. set (B := 2 ^ (dig p - 1)) in *. clearbody A B. lia.
+  - cbn. lia.
+Qed.
+
+Lemma dig_unique p d : 2 ^ (d - 1) <= Zpos p < 2 ^ d -> dig p = d.
+Proof.
+  intros [H1 H2]. pose proof (dig_bounds p) as [B1 B2]. pose proof (dig_pos p).
+  destruct (Z.lt_trichotomy (dig p) d) as [L|[E|L]]; [|exact E|].
+  - assert (2 ^ dig p <= 2 ^ (d - 1)) by (apply Z.pow_le_mono_r; lia). lia.
+  - assert (0 <= d) by (destruct (Z.neg_nonneg_cases d) as [N|N]; [rewrite (Z.pow_neg_r 2 d N) in H2; lia|exact N]).
+    assert (2 ^ d <= 2 ^ (dig p - 1)) by (apply Z.pow_le_mono_r; lia). lia.
+Qed.
+
+Lemma dig_shift p j : 0 <= j -> dig (Z.to_pos (Zpos p * 2 ^ j)) = dig p + j.
+Proof.
+  intros Hj. apply dig_unique. pose proof (dig_bounds p) as [B1 B2]. pose proof (dig_pos p).
+  assert (0 < 2 ^ j) by (apply Z.pow_pos_nonneg; lia).
+  rewrite Z2Pos.id by lia.
+  replace (dig p + j - 1) with (dig p - 1 + j) by lia. rewrite !Z.pow_add_r by lia. nia.
+Qed.
+
+(* ---- shifting right by k bits a multiple of 2^k ---- *)
+Definition it {A} (f : A -> A) (n : nat) (x : A) : A := nat_rect (fun _ => A) x (fun _ => f) n.
+Lemma it_comm {A} (f : A -> A) n x : it f n (f x) = f (it f n x).
+Proof. induction n as [|n IH]; cbn; [reflexivity|]. unfold it in IH. rewrite IH. reflexivity. Qed.
+Lemma it_add {A} (f : A -> A) a b x : it f (a + b) x = it f a (it f b x).
+Proof. induction a as [|a IH]; cbn; [reflexivity|]. unfold it in IH. rewrite IH. reflexivity. Qed.
+Lemma iter_pos_it {A} (f : A -> A) p x : SpecFloat.iter_pos f p x = it f (Pos.to_nat p) x.
+Proof.
+  revert x. induction p as [p IH|p IH|]; intros x; cbn [SpecFloat.iter_pos].
+  - rewrite !IH. rewrite Pos2Nat.inj_xI.
+    replace (S (2 * Pos.to_nat p)) with (S (Pos.to_nat p + Pos.to_nat p)) by lia.
+    change (it f (S (Pos.to_nat p + Pos.to_nat p)) x) with (f (it f (Pos.to_nat p + Pos.to_nat p) x)).
+    rewrite it_add, !it_comm. reflexivity.
+  - rewrite !IH. rewrite Pos2Nat.inj_xO.
+    replace (2 * Pos.to_nat p)%nat with (Pos.to_nat p + Pos.to_nat p)%nat by lia.
+    rewrite it_add. reflexivity.
+  - reflexivity.
+Qed.
+
+Definition rec0 (m : Z) : shr_record := Build_shr_record m false false.
+
+Lemma shr_1_even x : 0 < x -> shr_1 (rec0 (2 * x)) = rec0 x.
+Proof. destruct x as [|p|p]; try lia. intros _. reflexivity. Qed.
+
+Lemma it_shr n : forall x, 0 < x -> it shr_1 n (rec0 (x * 2 ^ Z.of_nat n)) = rec0 x.
+Proof.
+  induction n as [|n IH]; intros x Hx.
+  - cbn. f_equal. lia.
+  - change (it shr_1 (S n) (rec0 (x * 2 ^ Z.of_nat (S n)))) with (shr_1 (it shr_1 n (rec0 (x * 2 ^ Z.of_nat (S n))))).
+    rewrite <- it_comm.
+    replace (x * 2 ^ Z.of_nat (S n)) with (2 * (x * 2 ^ Z.of_nat n))
+      by (rewrite Nat2Z.inj_succ, Z.pow_succ_r by lia; lia).
+    rewrite shr_1_even by (assert (0 < 2 ^ Z.of_nat n) by (apply Z.pow_pos_nonneg; lia); nia).
+    apply IH. exact Hx.
+Qed.
+
+Lemma shr_exact m e k : 0 < m -> 0 < k -> shr (rec0 (m * 2 ^ k)) e k = (rec0 m, e + k).
+Proof.
+  intros Hm Hk. destruct k as [|p|p]; try lia. unfold shr. rewrite iter_pos_it.
+  rewrite <- (positive_nat_Z p) at 1. rewrite it_shr by exact Hm. reflexivity.
+Qed.
+
+Lemma fexp53 x : -1074 <= x - 53 -> fexp 53 1024 x = x - 53.
+Proof. unfold fexp, emin. lia. Qed.
+
+(* binary_round_aux on an exact input, normal range *)
+Lemma aux_noshift s mx ex :
+  -1074 <= dig mx + ex - 53 -> dig mx <= 53 -> ex <= 971 ->
+  binary_round_aux 53 1024 s (Zpos mx) ex loc_Exact = S754_finite s mx ex.
+Proof.
+  intros R D E. unfold binary_round_aux, shr_fexp.
+  change (Zdigits2 (Z.pos mx)) with (dig mx).
+  rewrite fexp53 by lia. unfold shr_record_of_loc.
+  assert (S1 : shr (Build_shr_record (Z.pos mx) false false) ex (dig mx + ex - 53 - ex) = (Build_shr_record (Z.pos mx) false false, ex)).
+  { unfold shr. destruct (dig mx + ex - 53 - ex) eqn:K; try reflexivity. lia. }
+  rewrite S1. cbn [shr_m loc_of_shr_record round_nearest_even].
+  change (Zdigits2 (Z.pos mx)) with (dig mx). rewrite fexp53 by lia. rewrite S1. cbn [shr_m].
+  replace (Zle_bool ex (1024 - 53)) with true; [reflexivity|]. symmetry. apply Zle_is_le_bool. lia.
+Qed.
+
+Lemma aux_shift s mx ex m' :
+  let k := dig mx - 53 in
+  -1074 <= dig mx + ex - 53 -> 0 < k -> Zpos mx = Zpos m' * 2 ^ k -> ex + k <= 971 ->
+  binary_round_aux 53 1024 s (Zpos mx) ex loc_Exact = S754_finite s m' (ex + k).
+Proof.
+  intros k R K M E. unfold binary_round_aux, shr_fexp.
+  change (Zdigits2 (Z.pos mx)) with (dig mx).
+  rewrite fexp53 by lia. unfold shr_record_of_loc.
+  replace (dig mx + ex - 53 - ex) with k by (unfold k; lia).
+  change (Build_shr_record (Z.pos mx) false false) with (rec0 (Z.pos mx)).
+  rewrite M. rewrite shr_exact by lia.
+  cbn [rec0 shr_m loc_of_shr_record round_nearest_even].
+  change (Zdigits2 (Z.pos m')) with (dig m').
+  assert (Dm : dig m' = 53).
+  { assert (Hd : dig mx = dig m' + k).
+    { rewrite <- (dig_shift m' k) by lia. f_equal. rewrite <- M. reflexivity. }
+    unfold k in Hd. lia. }
+  rewrite Dm. rewrite fexp53 by (unfold k in *; lia).
+  replace (53 + (ex + k) - 53 - (ex + k)) with 0 by lia. cbn [shr shr_m].
+  replace (Zle_bool (ex + k) (1024 - 53)) with true; [reflexivity|]. symmetry. apply Zle_is_le_bool. lia.
+Qed.
+
+(* the binary64 value (-1)^s * q * 2^t for a q of at most 53 bits (normal range), in canonical form *)
+Definition normal (s : bool) (q : positive) (t : Z) : float64 :=
+  S754_finite s (Z.to_pos (Zpos q * 2 ^ (53 - dig q))) (t - 53 + dig q).
+
+Lemma pow2_pos k : 0 <= k -> 0 < 2 ^ k.
+Proof. intros. apply Z.pow_pos_nonneg; lia. Qed.
+
+Lemma normal_mant_dig q : dig q <= 53 -> dig (Z.to_pos (Zpos q * 2 ^ (53 - dig q))) = 53.
+Proof. intros H. rewrite dig_shift by lia. lia. Qed.
+
+Lemma normal_mant_Z q : dig q <= 53 -> Zpos (Z.to_pos (Zpos q * 2 ^ (53 - dig q))) = Zpos q * 2 ^ (53 - dig q).
+Proof. intros H. apply Z2Pos.id. pose proof (pow2_pos (53 - dig q)). nia. Qed.
+
+(* correctly rounding q * 2^j is exact *)
+Lemma round_normal s q j : dig q <= 53 -> 0 <= j -> dig q + j - 53 <= 971 ->
+  binary_round 53 1024 s (Z.to_pos (Zpos q * 2 ^ j)) 0 = normal s q j.
+Proof.
+  intros Hq Hj Hr. pose proof (dig_pos q) as Hq1.
+  set (mx := Z.to_pos (Zpos q * 2 ^ j)).
+  assert (Hd : dig mx = dig q + j) by (apply dig_shift; exact Hj).
+  assert (HZ : Zpos mx = Zpos q * 2 ^ j) by (apply Z2Pos.id; pose proof (pow2_pos j Hj); nia).
+  unfold binary_round. change (Z.pos (digits2_pos mx)) with (dig mx).
+  rewrite fexp53 by lia. unfold shl_align.
+  destruct (dig mx + 0 - 53 - 0) as [|p|p] eqn:K.
+  - rewrite aux_noshift by lia. unfold normal. f_equal; [|lia].
+    apply Pos2Z.inj. rewrite normal_mant_Z, HZ by lia. f_equal. f_equal. lia.
+  - rewrite (aux_shift s mx 0 (Z.to_pos (Zpos q * 2 ^ (53 - dig q)))); try lia.
+    + unfold normal. f_equal. lia.
+    + rewrite normal_mant_Z, HZ by lia. rewrite <- Z.mul_assoc, <- Z.pow_add_r by lia. f_equal. f_equal. lia.
+  - assert (E : shift_pos p mx = Z.to_pos (Zpos q * 2 ^ (53 - dig q))).
+    { apply Pos2Z.inj. rewrite shift_pos_correct, normal_mant_Z, HZ by lia.
+      change (Z.pow_pos 2 p) with (2 ^ Z.pos p).
+      rewrite Z.mul_comm, <- Z.mul_assoc, <- Z.pow_add_r by lia. f_equal. f_equal. lia. }
+    rewrite E. rewrite aux_noshift; [|try rewrite normal_mant_dig by lia; lia..].
+    unfold normal. f_equal. lia.
+Qed.
+
+Lemma dig_mul_lower q1 q2 : dig q1 + dig q2 - 1 <= dig (q1 * q2).
+Proof.
+  pose proof (dig_bounds q1) as [A1 _]. pose proof (dig_bounds q2) as [A2 _].
+  pose proof (dig_bounds (q1 * q2)) as [_ B]. pose proof (dig_pos q1). pose proof (dig_pos q2). pose proof (dig_pos (q1 * q2)).
+  destruct (Z_le_gt_dec (dig q1 + dig q2 - 1) (dig (q1 * q2))) as [L|G]; [exact L|exfalso].
+  assert (P : 2 ^ dig (q1 * q2) <= 2 ^ (dig q1 - 1 + (dig q2 - 1))) by (apply Z.pow_le_mono_r; lia).
+  rewrite Z.pow_add_r in P by lia. rewrite Pos2Z.inj_mul in B.
+  pose proof (pow2_pos (dig q1 - 1)). pose proof (pow2_pos (dig q2 - 1)). nia.
+Qed.
+
+(* the product of two exact values whose product still fits 53 bits is exact *)
+Lemma mul_normal s1 q1 t1 s2 q2 t2 :
+  dig q1 <= 53 -> dig q2 <= 53 -> dig (q1 * q2) <= 53 ->
+  -1074 <= t1 + t2 - 53 + dig (q1 * q2) -> t1 + t2 - 53 + dig (q1 * q2) <= 971 ->
+  f_mul (normal s1 q1 t1) (normal s2 q2 t2) = normal (xorb s1 s2) (q1 * q2) (t1 + t2).
+Proof.
+  intros H1 H2 H12 Rl Rh. pose proof (dig_pos q1). pose proof (dig_pos q2). pose proof (dig_mul_lower q1 q2) as DL.
+  unfold f_mul, normal at 1 2, SFmul.
+  set (m1 := Z.to_pos (Zpos q1 * 2 ^ (53 - dig q1))). set (m2 := Z.to_pos (Zpos q2 * 2 ^ (53 - dig q2))).
+  set (D := dig (q1 * q2)) in *.
+  assert (HM : Zpos (m1 * m2) = Zpos (q1 * q2) * 2 ^ (106 - dig q1 - dig q2)).
+  { rewrite !Pos2Z.inj_mul. unfold m1, m2. rewrite !normal_mant_Z by lia.
+    replace (106 - dig q1 - dig q2) with ((53 - dig q1) + (53 - dig q2)) by lia.
+    rewrite Z.pow_add_r by lia. lia. }
+  assert (HD : dig (m1 * m2) = D + (106 - dig q1 - dig q2)).
+  { rewrite <- (dig_shift (q1 * q2)) by lia. f_equal. rewrite <- HM. reflexivity. }
+  rewrite (aux_shift _ (m1 * m2) _ (Z.to_pos (Zpos (q1 * q2) * 2 ^ (53 - D)))); try lia.
+  - unfold normal. fold D. f_equal. lia.
+  - rewrite HM, normal_mant_Z by (fold D; lia). fold D.
+    rewrite <- Z.mul_assoc, <- Z.pow_add_r by lia. f_equal. f_equal. lia.
+Qed.
+
+Lemma div_eucl_eq a b : Z.div_eucl a b = (a / b, a mod b).
+Proof. unfold Z.div, Z.modulo. destruct (Z.div_eucl a b). reflexivity. Qed.
+
+Lemma div_core m1 e1 : dig m1 = 53 -> -1074 <= e1 - 4 ->
+  SFdiv_core_binary 53 1024 (Zpos m1) e1 4503599627370496 (-49) = (Zpos m1~0, e1 - 4, loc_Exact).
+Proof.
+  intros D R. unfold SFdiv_core_binary. cbv zeta.
+  change (Zdigits2 (Z.pos m1)) with (dig m1). rewrite D.
+  change (Zdigits2 4503599627370496) with 53.
+  replace (53 + e1 - (53 + -49)) with (e1 + 49) by lia. rewrite fexp53 by lia.
+  replace (Z.min (e1 + 49 - 53) (e1 - -49)) with (e1 - 4) by lia.
+  replace (e1 - -49 - (e1 - 4)) with 53 by lia.
+  rewrite Z.shiftl_mul_pow2 by lia. rewrite div_eucl_eq.
+  change (2 ^ 53) with (2 * 4503599627370496).
+  replace (Z.pos m1 * (2 * 4503599627370496)) with (Z.pos m1~0 * 4503599627370496) by (rewrite (Pos2Z.inj_xO m1); lia).
+  rewrite Z.div_mul, Z.mod_mul by lia. reflexivity.
+Qed.
+
+(* dividing an exact value by 8.0 is exact *)
+Lemma div8_normal s q t : dig q <= 53 -> -1074 <= t - 3 - 53 + dig q - 1 -> t - 3 - 53 + dig q <= 971 ->
+  f_div (normal s q t) (S754_finite false 4503599627370496 (-49)) = Some (normal s q (t - 3)).
+Proof.
+  intros Hq Rl Rh. unfold f_div. cbn [f_is_zero]. f_equal.
+  unfold normal. set (m1 := Z.to_pos (Zpos q * 2 ^ (53 - dig q))).
+  assert (Dm : dig m1 = 53) by (apply normal_mant_dig; exact Hq).
+  unfold SFdiv. rewrite div_core by (try exact Dm; lia).
+  rewrite (aux_shift _ (m1~0) _ m1); try (rewrite dig_xO, Dm; lia).
+  rewrite dig_xO, Dm. rewrite Bool.xorb_false_r. f_equal. lia.
+Qed.
+
+(* the value of an exact float, when it is an integer *)
+Lemma ceil_normal s q t : dig q <= 53 -> 0 <= t ->
+  ceil_to_Z (normal s q t) = Ok ((if s then -1 else 1) * (Zpos q * 2 ^ t)).
+Proof.
+  intros Hq Ht. pose proof (dig_pos q). unfold normal, ceil_to_Z. rewrite normal_mant_Z by exact Hq.
+  set (m := Zpos q * 2 ^ (53 - dig q)).
+  assert (Hm : Zpos (Z.to_pos m) = m) by (apply normal_mant_Z; exact Hq).
+  replace (if s then Z.neg (Z.to_pos m) else m) with ((if s then -1 else 1) * m)
+    by (destruct s; [change (Z.neg (Z.to_pos m)) with (- Z.pos (Z.to_pos m)); rewrite Hm|]; lia).
+  unfold f_pow2. f_equal.
+  destruct (0 <=? t - 53 + dig q) eqn:E.
+  - unfold m. rewrite <- !Z.mul_assoc, <- Z.pow_add_r by lia. f_equal. f_equal. f_equal. lia.
+  - assert (E2 : m = (Zpos q * 2 ^ t) * 2 ^ (- (t - 53 + dig q))).
+    { unfold m. rewrite <- Z.mul_assoc, <- Z.pow_add_r by lia. f_equal. f_equal. lia. }
+    rewrite E2. pose proof (pow2_pos (- (t - 53 + dig q))).
+    replace (- ((if s then -1 else 1) * (Z.pos q * 2 ^ t * 2 ^ (- (t - 53 + dig q)))))
+      with ((- ((if s then -1 else 1) * (Z.pos q * 2 ^ t))) * 2 ^ (- (t - 53 + dig q))) by lia.
+    rewrite Z.div_mul by lia. lia.
+Qed.
